@@ -180,30 +180,51 @@ def restore_rule(repo, res, pur):
             # the refresher stores only its own slots on self
             stored = {t.attr for s in walk_no_nested(ref) if isinstance(s, (ast.Assign, ast.AnnAssign, ast.AugAssign)) for t in (s.targets if isinstance(s, ast.Assign) else [s.target]) if isinstance(t, ast.Attribute) and norm(t.value) == "self"}
             res.check("PURE-RESTORE", "%s.%s stores only its cache slots %s" % (cn, fnname, sorted(slots)), stored <= slots and bool(stored), c.mod, ref, "%s.%s stores %s" % (cn, fnname, sorted(stored - slots)), "the refresh function that read-only operations may call writes attributes other than its derived caches", qualname="%s.%s" % (cn, fnname))
-            for mname, f in c.methods.items():
-                if MUTATORS.match(mname):
-                    continue
-                for i, st in enumerate(f.body):
-                    if not isinstance(st, ast.Assign):
-                        continue
-                    for t in st.targets:
-                        if isinstance(t, ast.Attribute) and norm(t.value) == "self" and t.attr in slots:
-                            n += 1
-                            restored = False
-                            for later in f.body[i + 1:]:
-                                if isinstance(later, ast.Return) or terminates([later]):
-                                    break
-                                if isinstance(later, ast.Expr) and isinstance(later.value, ast.Call) and norm(later.value.func) == "self." + fnname:
-                                    restored = True
-                                    break
-                            res.check("PURE-RESTORE", "%s.%s drops %s and rebuilds it before returning" % (cn, mname, t.attr), restored, c.mod, st, "%s.%s drops self.%s without rebuilding it" % (cn, mname, t.attr), "after the operation the network has no spatial index: the inspected object changed", qualname="%s.%s" % (cn, mname))
-                # a drop anywhere else (nested in a branch) is not a recognised restore idiom
-                for st in walk_no_nested(f):
-                    if isinstance(st, ast.Assign) and st not in f.body:
-                        for t in st.targets:
-                            if isinstance(t, ast.Attribute) and norm(t.value) == "self" and t.attr in slots:
-                                res.bad("PURE-RESTORE", "%s.%s conditional drop" % (cn, mname), Finding("PURE-RESTORE", c.mod, st, "%s.%s drops self.%s inside a branch" % (cn, mname, t.attr), "a conditional drop of the index is not paired with a rebuild", qualname="%s.%s" % (cn, mname)))
+            n += 1
     return n
+
+
+def restore_eval_rule(repo, res, fks):
+    """PURE-RESTORE by abstract evaluation: a read-only operation of the lanelet network that drops the spatial index
+    on the way (deep copy) is evaluated on a small symbolic network; afterwards every attribute of the inspected
+    network must be the very same object as before, except the index slots, which must satisfy the index invariant
+    again (c06ev).  Where the drop and the rebuild are written (inline, helper, loop over both networks) is irrelevant."""
+    from . import c06ev
+    from ..strdom import DictV, Undecided, _Raise, show
+
+    slots = set().union(*REFRESHERS.values())
+    for fk in fks:
+        if fk.cls is None or fk.cls.name != "LaneletNetwork":
+            raise AnalysisError("%s drops an index slot: only LaneletNetwork operations are modelled" % fk.name)
+        params = [a.arg for a in fk.fn.args.args][1:]
+        if fk.fn.name == "__deepcopy__":
+            args = [DictV()]
+        elif not params:
+            args = []
+        else:
+            raise AnalysisError("%s drops an index slot and takes arguments %s: outside the modelled operations" % (fk.name, params))
+        n = c06ev.network(repo, [c06ev.lanelet(repo, 11), c06ev.lanelet(repo, 25)])
+        before = dict(n.fields)
+        ev = c06ev.evaluator(repo)
+        bad = []
+        try:
+            ev.call_fn(ev.bind(fk.fn, fk.cls, n), args, {}, fk.fn)
+            for k, v in before.items():
+                if k in slots:
+                    continue
+                if k not in n.fields:
+                    bad.append("attribute %s is gone" % k)
+                elif n.fields[k] is not v:
+                    bad.append("attribute %s was replaced" % k)
+            extra = sorted(set(n.fields) - set(before))
+            if extra:
+                bad.append("new attributes %s" % extra)
+            bad += c06ev.invariant(n)
+        except _Raise as x:
+            bad.append("raises %s" % x.what)
+        except Undecided as x:
+            raise AnalysisError("%s: %s" % (fk.name, x))
+        res.check("PURE-RESTORE", "%s leaves the inspected network as it was (index rebuilt, nothing else touched)" % fk.name, not bad, fk.mod, fk.fn, "%s: %s" % (fk.name, "; ".join(bad[:3])), "after the operation the inspected network has no (or a wrong) spatial index, or another attribute changed", qualname=fk.name)
 
 
 def run(repo, res, tier):
@@ -221,14 +242,20 @@ def run(repo, res, tier):
     for fk, cat in model + host:
         res.ok("PURE-TABLE", "%s:%s (%s)" % (fk.mod.rel, fk.name, cat))
     restore_slots = set().union(*REFRESHERS.values())
+    dropping = {}
     for group, rule in ((model, "PURE-MODEL"), (host, "PURE-HOST")):
         for fk, cat in group:
             vs = pur.violations(fk)
             qn = fk.name
             kept = []
             for node, construct, why in vs:
-                # drops handled by PURE-RESTORE
+                # drops of a refresher-owned slot (directly or in a helper working on self) are judged by PURE-RESTORE,
+                # which evaluates the operation and compares the object before and after
                 if isinstance(node, ast.Assign) and any(isinstance(t, ast.Attribute) and norm(t.value) == "self" and t.attr in restore_slots for t in node.targets):
+                    dropping.setdefault(id(fk.fn), fk)
+                    continue
+                if fk.cls is not None and any(construct.rstrip().endswith("store self.%s" % sl) for sl in restore_slots) and "self." in construct.split("->")[0]:
+                    dropping.setdefault(id(fk.fn), fk)
                     continue
                 kept.append((node, construct, why))
             if not kept:
@@ -236,6 +263,7 @@ def run(repo, res, tier):
             for node, construct, why in kept:
                 res.bad(rule, "%s (%s)" % (qn, cat), Finding(rule, fk.mod, node, "%s: %s" % (qn, construct), "a read-only operation (%s) changes the inspected model: %s" % (cat, why), qualname=qn))
     restore_rule(repo, res, pur)
+    restore_eval_rule(repo, res, list(dropping.values()))
     for u in sorted(pur.unresolved) + sorted(pur.eff.unresolved):
         res.note("unresolved: " + u)
     for mmo in sorted(set(pur.eff.memos)):
